@@ -6,7 +6,14 @@
 # Prints one of:  COMPILER-PANIC: ...   BUILD-FAIL: ...   RUN-FAIL: ...   or the program's output.
 export GOFLAGS=-mod=mod GOPROXY=off GOSUMDB=off GOTOOLCHAIN=local
 repo=$(realpath "$1"); shift
-d=$(mktemp -d /tmp/cotoolXXXXXX); trap 'rm -rf "$d"' EXIT
+# a fixed scratch path per parallel slot: the Go build cache is keyed by directory, random scratch names would grow it without bound
+d=""
+for i in $(seq 0 63); do
+  exec 9>"/tmp/cotool-slot-$i.lock"
+  if flock -n 9; then d=/tmp/cotool-slot-$i; break; fi
+done
+[ -n "$d" ] || { d=$(mktemp -d /tmp/cotoolXXXXXX); }
+rm -rf "$d"; mkdir -p "$d"; trap 'rm -rf "$d"' EXIT
 rsync -a --exclude .git --exclude example --exclude 'rewriter/test' "$repo/" "$d/"
 mkdir -p "$d/zzs/src" "$d/zzs/tool"
 i=0
